@@ -28,7 +28,14 @@ RULE = ('every op of the catalogue (tensor and nn ops) inside a fan-out graph: i
         'GATHERS (embedding style): a table of rank 1-3 (leaf or interior, other consumers) indexed 1-3 times by integer lists along any axis whose '
         'repeats are written through MIXED spellings (a row once as q and once as q - n: no written value repeats), by plain repeats, or without '
         'repeats, between slices / ellipsis / newaxis, the list arriving as a Python list, a list of NumPy integers or an int64 / int32 / intp '
-        'ndarray; the gathered rows feed products with weights, tanh, reductions, a projection matmul, a second-level gather, and a weighted total.')
+        'ndarray; the gathered rows feed products with weights, tanh, reductions, a projection matmul, a second-level gather, and a weighted total. '
+        'OBJECT REUSE: one object of every layer / activation / pooling / loss class (and BatchNorm / Dropout objects with dictated statistics / draws) '
+        'called 2-4 times before any backward — same shape again, another batch size, its own earlier result, train() / eval() switched —, then backward '
+        'through the single results (the earliest first or alone) and / or their total. '
+        'UPSTREAM REUSE: the caller hands ONE upstream-gradient tensor object to 2-4 backward calls (a result and then a result built on top of it, '
+        'a leaf, the same root twice; g a constant tensor of the program — also an operand of the graph —, a Tensor over a view of another array or '
+        'over a row of a larger one; float64 or float32), leaves zeroed in between or not: after every call every leaf gradient is compared and the '
+        'caller\'s array must be bit-identical.')
 EXHAUSTIVE = {'quick': False, 'thorough': False}
 ASSUMPTIONS = ['float64 programs; summation order of NumPy reductions differs from the model by rounding only (rel 1e-9)']
 TRUSTED_BASE = ['harness/tprog.py, harness/gen_dag.py (generator, executor, canonicalisation)', 'harness/extract.py (op table extractor)']
@@ -179,7 +186,15 @@ def ev_lines(events, P, ren=None):
     for e in events:
         t = e[1] if ren is None else ren[e[1]]
         out.append(f"t bw {t} {show_ints(P.tshape[e[1]])} {show_floats(e[2])}" if e[0] == 'bw' else f't zero {t}')
+        if e[0] == 'bw' and len(e) > 3 and e[3]:        # the upstream gradient is an object of the caller's: (kind, tensor id, dtype)
+            assert ren is None
+            out[-1] += (' f32' if e[3][2] == 'f32' else '') + f' @g{e[3][0]}{e[3][1]}'
     return out
+
+
+def upstream_holders(events):
+    """tensor ids whose arrays back a caller-owned upstream gradient"""
+    return sorted({e[3][1] for e in events if e[0] == 'bw' and len(e) > 3 and e[3]})
 
 
 def float_leaves(P):
@@ -193,10 +208,11 @@ def finish_hist(rng, P, events, exec_=None):
     q = [f't val {k}' for k in range(nt)] + [f't flags {k}' for k in range(nt)]
     lf = float_leaves(P)
     evl = []
+    hold = upstream_holders(events)
     for e in events:
         evl += ev_lines([e], P)
         if e[0] == 'bw':
-            evl += [f't grad {k}' for k in lf]
+            evl += [f't grad {k}' for k in lf] + [f't val {k}' for k in hold]        # the caller's upstream tensors are inputs of the call: unchanged
     after = [f't grad {k}' for k in range(nt)] + [f't flags {k}' for k in range(nt)]
     uses = {}
     for nd in P.nodes:
@@ -436,6 +452,56 @@ class StatefulExec(tprog.Impl):
     def __init__(self):
         super().__init__()
         self.layers = {}
+        self.gobj = {}
+
+    def run(self, line):
+        """`t bw <root> <shape> <data> [dtype] @gt<i> | @gv<i> | @gr<i>`: the upstream gradient is NOT a fresh tensor but an object the
+        caller keeps and hands to several backward calls: the program's tensor i itself (gt), one Tensor object over a view of
+        tensor i's array (gv), one Tensor object over row 0 of tensor i's array (gr). The values on the line are what that object
+        held when the program was written; the model gets exactly those."""
+        if line.startswith('t bw ') and ' @g' in line:
+            t = line.split(' ')
+            tag = [a for a in t if a.startswith('@g')][0]
+            if tag not in self.gobj:
+                src = self.ts[int(tag[3:])]
+                self.gobj[tag] = src if tag[2] == 't' else self.sg.Tensor(src.data[...] if tag[2] == "v" else src.data[0, ...])
+            g = self.gobj[tag]
+            tr = self.traced(lambda: self.ts[int(t[2])].backward(g))
+            return 'ok trace=' + (','.join(tr) if tr else '_')
+        return super().run(line)
+
+    def _obj(self, tg, name, x, args):
+        """`@obj<k>:<0|1>`: the call goes through ONE layer / activation / loss object per key, built at its first call from the
+        arguments of that call and kept for the life of the program; 1: train(), 0: eval() before the call. The parameters of a
+        Linear / Conv object ARE the program's operand tensors."""
+        key, mode = tg.split(':')
+        nn = self.nn
+        pair = lambda a: tuple(common.parse_ints(a))
+        if key not in self.layers:
+            if name in ('relu', 'selu', 'tanh', 'sigmoid'): m = {'relu': nn.ReLU, 'selu': nn.SELU, 'tanh': nn.Tanh, 'sigmoid': nn.Sigmoid}[name]()
+            elif name == 'leaky_relu': m = nn.LeakyReLU(common.bitsf(args[0]))
+            elif name in ('softmax', 'log_softmax'): m = (nn.Softmax if name == 'softmax' else nn.LogSoftmax)(int(args[0]))
+            elif name in ('max_pool1d', 'avg_pool1d'): m = (nn.MaxPool1d if name[0] == 'm' else nn.AvgPool1d)(int(args[0]), int(args[1]), int(args[2]), int(args[3]))
+            elif name in ('max_pool2d', 'avg_pool2d'): m = (nn.MaxPool2d if name[0] == 'm' else nn.AvgPool2d)(pair(args[0]), pair(args[1]), pair(args[2]), pair(args[3]))
+            elif name == 'unfold': m = nn.Unfold(pair(args[0]), stride=pair(args[2]), padding=pair(args[3]), dilation=pair(args[1]), pad_value=common.bitsf(args[4]))
+            elif name == 'fold': m = nn.Fold(pair(args[0]), pair(args[1]), stride=pair(args[3]), padding=pair(args[4]), dilation=pair(args[2]))
+            elif name == 'flatten': m = nn.Flatten(int(args[0]), int(args[1]))
+            elif name in ('linear', 'conv1d', 'conv2d'):
+                w = x[1]; b = x[2] if len(x) > 2 else None
+                if name == 'linear': m = nn.Linear(w.shape[1], w.shape[0], bias=b is not None)
+                elif name == 'conv1d': m = nn.Conv1d(w.shape[1], w.shape[0], w.shape[2], int(args[1]), int(args[2]), int(args[3]), bias=b is not None)
+                else: m = nn.Conv2d(w.shape[1], w.shape[0], (w.shape[2], w.shape[3]), pair(args[1]), pair(args[2]), pair(args[3]), bias=b is not None)
+                object.__setattr__(m, 'weight', w)
+                object.__setattr__(m, 'bias', b)
+            elif name in LOSS_CLS: m = getattr(nn, LOSS_CLS[name])(reduction='none')
+            else: raise KeyError(name)
+            self.layers[key] = m
+        m = self.layers[key]
+        m.train() if int(mode) else m.eval()
+        if name in ('linear', 'conv1d', 'conv2d'):
+            assert m.weight is x[1] and (m.bias is None or m.bias is x[2])
+            return m(x[0])
+        return m(x[0], x[1]) if name in LOSS_CLS else m(x[0])
 
     def _dropout(self, key, p):
         if key not in self.layers:
@@ -460,6 +526,8 @@ class StatefulExec(tprog.Impl):
                     return self._bn(tg, [self.ts[i] for i in ins], args)
                 if tg.startswith('do'):
                     return self._do(tg, [self.ts[i] for i in ins])
+                if tg.startswith('obj'):
+                    return self._obj(tg, name, [self.ts[i] for i in ins], args)
             return super().call_op(name, ins, args)
         finally:
             for i, v in saved.items():
@@ -507,6 +575,8 @@ class StatefulExec(tprog.Impl):
         return sg.batch_norm(x[0], w, b, L[0], L[1], tr, mom, eps)
 
 
+LOSS_CLS = {'mse_loss': 'MSELoss', 'nll_loss': 'NLLLoss', 'binary_cross_entropy': 'BCELoss', 'binary_cross_entropy_with_logits': 'BCEWithLogitsLoss',
+            'cross_entropy': 'CrossEntropyLoss'}
 EXECS = {None: tprog.Impl, 'stateful': StatefulExec, 'gather': GatherExec}
 
 
@@ -518,8 +588,33 @@ def _bn_np(X, gam, bet, m, v, eps):
     return Y
 
 
-def stateful_case(rng):
-    """layer OBJECTS with state called several times inside ONE graph, in different modes, before backward: BatchNorm with running
+def result_events(rng, P, outs, first=None):
+    """backward through the results of the single calls — each ALONE, with a non-uniform upstream gradient, in any order, the EARLIEST result
+    (of the layer in focus) mostly first or the only one — and / or through the weighted total of all of them; all after every call was made"""
+    first = outs[0] if first is None else first
+    used = {i for nd in P.nodes for i in nd['ins']}
+    sinks = [t for t in range(len(P.tshape)) if t not in used and P.nodes[P.owner[t]]['kind'] == 'op']
+    r = rng.random()
+    if r < .3: seq = [first]
+    elif r < .55: seq = [first] + rng.sample([t for t in outs if t != first], rng.randint(0, len(outs) - 1))
+    else:
+        seq = rng.sample(outs, rng.randint(1, len(outs)))
+    events = [('bw', t, gen_dag.rand_data(rng, P.tshape[t], -2, 2)) for t in seq]
+    if rng.chance(.5):
+        rng.shuffle(sinks)
+        events.insert(rng.randint(0, len(events)) if rng.chance(.3) else len(events), ('bw', total_of(rng, P, sinks), gen_dag.rand_data(rng, (), -2, 2)))
+    if rng.chance(.25) and len(events) > 1:
+        lf = [nd['outs'][0] for nd in P.nodes if nd['kind'] == 'leaf' and nd['rg']]
+        k = rng.randint(1, len(events) - 1)
+        events[k:k] = [('zero', t) for t in lf]
+    return events, {'only the earliest result': len(seq) == 1 and len(events) == 1, 'earliest result first': seq[0] == first,
+                    'results differentiated alone': len(seq), 'total as a root': len(events) - len([e for e in events if e[0] == 'zero']) > len(seq)}
+
+
+def stateful_case(rng, each=False):
+    """each: the roots are the results of the single calls (see result_events) instead of the total; each == 'do': a Dropout object is
+    among the layers and is called (at least) twice in training mode.
+    layer OBJECTS with state called several times inside ONE graph, in different modes, before backward: BatchNorm with running
     statistics (a training call moves the statistics an earlier or later eval call normalises with), Dropout (every training call
     draws another mask, an eval call is the identity). Inputs are fresh leaves, earlier results (chains through the same layer) or
     their negation; all sinks are joined by a weighted total. The model — and the finite-difference oracle — are told on every line the
@@ -544,14 +639,18 @@ def stateful_case(rng):
         L['w'] = leaf((C,), gen_ops.vals(rng, (C,), 'pos'), rng.chance(.85)) if hw else None
         L['b'] = leaf((C,), gen_ops.vals(rng, (C,)), rng.chance(.85)) if hb else None
         layers.append(L)
-    for j in range(rng.randint(0, 1)):
+    for j in range(rng.randint(0, 1) if not each else 1 if each == 'do' else rng.pick([0, 1, 1, 1])):
         layers.append({'kind': 'do', 'key': f'do{j}', 'p': rng.pick([0.25, 0.5, 0.75, 0.1]), 'modes': []})
     ncalls = rng.randint(2, 5)
     # most cases hold the pattern "a layer normalises in eval mode, the SAME layer is trained later, then backward"
     # ... or "one Dropout object draws a mask, then another one (with an eval-mode call in between), then backward"
     focus = rng.pick(layers)
+    if each and (each == 'do' or rng.chance(.6)) and any(L['kind'] == 'do' for L in layers):
+        focus = [L for L in layers if L['kind'] == 'do'][0]
     script = []
-    if rng.chance(.75):
+    if each == 'do':        # two training calls of ONE Dropout object on same-shape inputs (then: backward through the first result)
+        script = [(focus, True), (focus, True)]
+    elif rng.chance(.9 if each else .75):
         script = [(focus, False), (focus, True)] if focus['kind'] == 'bn' else [(focus, True), (focus, False), (focus, True)] if rng.chance(.4) else [(focus, True), (focus, True)]
     while len(script) < ncalls:
         script.insert(rng.randint(0, len(script)) if rng.chance(.4) else len(script), (rng.pick(layers), rng.chance(.5)))
@@ -589,6 +688,14 @@ def stateful_case(rng):
             P.nodes[-1]['tag'] = f"@via0={L['key']}:{common.fbits(L['p'])}"
             V[out] = -V[x] if P.nodes[-1]['name'] == 'neg' else V[x]
         pool.append(out)
+        L.setdefault('outs', []).append(out)
+    if each:
+        events, st = result_events(rng, P, pool[1:], focus['outs'][0] if (focus.get('outs') and rng.chance(.7)) else None)
+        c = finish_hist(rng, P, events, 'stateful')
+        c['order'] = None
+        c['stateful'] = {f"{L['key']}:{L.get('entry', '')}:{'mom=None' if L.get('mom', 0) is None else ''}": '>'.join(L['modes']) for L in layers}
+        c['reuse'] = dict(st, kind='stateful layer (BatchNorm / Dropout)')
+        return c
     used = {i for nd in P.nodes for i in nd['ins']}
     sinks = [t for t in range(len(P.tshape)) if t not in used and P.nodes[P.owner[t]]['kind'] == 'op']
     rng.shuffle(sinks)
@@ -604,8 +711,136 @@ def stateful_case(rng):
     return c
 
 
+OBJ_OPS = ['relu', 'leaky_relu', 'selu', 'tanh', 'sigmoid', 'softmax', 'log_softmax', 'mse_loss', 'nll_loss', 'binary_cross_entropy',
+           'binary_cross_entropy_with_logits', 'cross_entropy', 'linear', 'conv1d', 'conv2d', 'max_pool1d', 'avg_pool1d', 'max_pool2d', 'avg_pool2d',
+           'unfold', 'fold']
+
+
+def object_case(rng, op):
+    """ONE layer / activation / pooling / loss OBJECT (every class of synapgrad.nn that has a functional counterpart in the catalogue) called
+    2-4 times inside one graph BEFORE any backward: on inputs of the same shape (most of the time: whatever the object caches per shape is
+    then reused) or of another batch size, on fresh leaves or on its own earlier result, switched between train() and eval(); a Linear /
+    Conv object keeps its parameters over the calls. Then backward through the results (result_events). The model and the oracle see
+    each call as the function it computed."""
+    import gen_ops
+    for _ in range(40):
+        leaves, args = gen_ops.gen_nn(rng, op, False)
+        if op in TIE_OPS and len(set(leaves[0][1])) != len(leaves[0][1]): continue
+        if len(leaves[0][1]) > 80 or any(abs(v) > 50 for v in leaves[0][1]): continue
+        break
+    else:
+        return None
+    P = gen_dag.Prog()
+    dtof = lambda lf: lf[3] if len(lf) > 3 else 'f64'
+    shared = op in ('linear', 'conv1d', 'conv2d')          # operands 1.. are the object's parameters
+    nper = 1 if shared else len(leaves)                    # operands that are data of ONE call
+    par = [P.add_leaf(lf[0], lf[1], lf[2] if len(lf) > 2 else True, dtof(lf)) for lf in leaves[nper:]]
+    ncalls = rng.randint(2, 4)
+    outs, shapes, modes = [], [], []
+    smooth = op in ('tanh', 'sigmoid', 'softmax', 'log_softmax', 'linear', 'avg_pool1d', 'avg_pool2d', 'conv1d', 'conv2d')
+    for k in range(ncalls):
+        data = [list(lf[1]) for lf in leaves[:nper]]
+        shs = [tuple(lf[0]) for lf in leaves[:nper]]
+        if k:
+            perm = None
+            for j in range(nper):       # other values of the same kind: a permutation of the first call's
+                rng.shuffle(data[j])
+            if len(shs[0]) >= 1 and rng.chance(.35):       # another batch size
+                n0 = shs[0][0]
+                n1 = n0 + 1 if (n0 == 1 or rng.chance(.5)) else n0 - 1
+                for j in range(nper):
+                    per = len(data[j]) // n0
+                    data[j] = (data[j] + data[j][:per])[:n1 * per]
+                    shs[j] = (n1,) + shs[j][1:]
+        a = list(args)
+        if op in ('nll_loss', 'cross_entropy'):
+            a = [show_ints([int(v) for v in data[1]])]
+        ins = []
+        for j in range(nper):
+            lf = leaves[j]
+            prev = [t for t in outs if tuple(P.tshape[t]) == shs[j]]
+            if j == 0 and k and smooth and prev and rng.chance(.25):
+                ins.append(rng.pick(prev))
+            else:
+                ins.append(P.add_leaf(shs[j], data[j], (True if (j == 0 and k == 0) else (lf[2] if len(lf) > 2 else True)) and dtof(lf) == 'f64', dtof(lf)))
+        mode = int(rng.chance(.6))
+        o = add_op_asking(P, op, ins + par, a, tag=f'@obj0:{mode}')
+        if o is None: return None
+        outs += o; shapes.append(shs[0]); modes.append(mode)
+    events, st = result_events(rng, P, outs)
+    c = finish_hist(rng, P, events, 'stateful')
+    c['order'] = None
+    c['reuse'] = dict(st, kind=op, calls=ncalls, same_shape_again=len(set(shapes)) < len(shapes), other_shape=len(set(shapes)) > 1,
+                      train_and_eval=len(set(modes)) > 1, own_result_as_input=any(P.nodes[P.owner[t]]['kind'] == 'op' for nd in P.nodes if nd.get('tag') for t in nd['ins'][:1]))
+    return c
+
+
+def upstream_case(rng):
+    """backward calls that REUSE the caller's upstream-gradient tensor object: one tensor g handed to 2-4 calls from different roots of the
+    same shape (a result and then a result built on top of it, a leaf, the same root twice), g being a constant tensor of the program itself
+    (possibly also an OPERAND of some op), a Tensor over a view of another array, or over row 0 of a larger array; float64 (the roots' dtype)
+    or float32; the leaves zeroed in between or left to accumulate. After every call: every leaf gradient, and the caller's array — an input
+    of the call — unchanged."""
+    P = gen_dag.Prog()
+    sh = rng.pick([(), (2,), (3,), (2, 3), (2, 2), (1, 3), (2, 1, 2)])
+    n = int(np.prod(sh)) if sh else 1
+    xs = [P.add_leaf(sh, gen_dag.rand_data(rng, sh, -1, 1), True) for _ in range(rng.randint(1, 2))]
+    holders = []
+    for _ in range(rng.pick([1, 1, 2])):
+        kind = rng.pick(['t', 't', 'v', 'r'])
+        dt = 'f32' if rng.chance(.2) else 'f64'
+        hsh = ((2,) + sh) if kind == 'r' else sh
+        data = [rng.dyadic(-2, 2) or 0.5 for _ in range(n * (2 if kind == 'r' else 1))]       # (exact in binary32 as well)
+        holders.append((kind, P.add_leaf(hsh, data, False, dt), dt, data[:n]))
+    res, as_operand = [], False
+    for j in range(rng.randint(2, 4)):
+        a = rng.pick(res + xs) if (rng.chance(.3) or not res) else res[-1]
+        r = rng.random()
+        opnd = [h for h in holders if h[0] == 't' and h[2] == 'f64']
+        if r < .25:
+            w = P.add_leaf(sh, gen_dag.rand_data(rng, sh), False)
+            t = P.add_op('mul', [a, w] if rng.chance(.5) else [w, a], [], [sh])[0]
+        elif r < .45: t = P.add_op(rng.pick(['add', 'mul']), [a, a], [], [sh])[0]
+        elif r < .6: t = P.add_op(rng.pick(['add', 'mul']), [a, rng.pick(res + xs)], [], [sh])[0]
+        elif r < .72 and opnd:
+            t = P.add_op(rng.pick(['add', 'mul']), [a, rng.pick(opnd)[1]], [], [sh])[0]; as_operand = True       # g is also an operand of the graph
+        else: t = P.add_op(rng.pick(['tanh', 'sigmoid', 'neg', 'clone']), [a], [], [sh])[0]
+        res.append(t)
+    def ev(t, h):
+        return ('bw', t, list(h[3]), (h[0], h[1], h[2]))
+    h0 = holders[0]
+    i = rng.randrange(len(res) - 1); j = rng.randint(i + 1, len(res) - 1)
+    calls = [ev(res[i], h0), ev(res[j], h0)] if rng.chance(.8) else [ev(rng.pick(xs), h0), ev(rng.pick(res), h0)]
+    for _ in range(rng.randint(0, 2)):
+        t = rng.pick(res + res + xs)
+        e = ev(t, rng.pick(holders)) if rng.chance(.7) else ('bw', t, gen_dag.rand_data(rng, sh, -2, 2))
+        calls.insert(rng.randint(0, len(calls)), e)
+    events = []
+    for k, e in enumerate(calls):
+        if k and rng.chance(.3): events += [('zero', x) for x in xs if rng.chance(.7)]
+        events.append(e)
+    c = finish_hist(rng, P, events, 'stateful')
+    c['order'] = None
+    tagged = [e for e in events if e[0] == 'bw' and len(e) > 3]
+    c['upstream'] = {'calls sharing one upstream tensor': max(sum(1 for e in tagged if e[3][1] == h[1]) for h in holders),
+                     'kinds': sorted({{'t': 'tensor of the program', 'v': 'view of another array', 'r': 'row of a larger array'}[h[0]] + '/' + h[2] for h in holders}),
+                     'also an operand': as_operand, 'leaf as root': any(e[1] in xs for e in tagged), 'zeroed in between': any(e[0] == 'zero' for e in events),
+                     'same root twice': len({e[1] for e in tagged}) < len(tagged)}
+    return c
+
+
 def cases(rng, tier):
     out = []
+    # layer / activation / pooling / loss OBJECTS called several times before any backward, then differentiated result by result
+    for op in OBJ_OPS:
+        for _ in range(2 if tier == 'quick' else 40):
+            c = object_case(rng, op)
+            if c: out.append(c)
+    for _ in range(30 if tier == 'quick' else 1000):
+        out.append(stateful_case(rng, each=True))
+    # the caller's upstream-gradient tensor object handed to several backward calls
+    for _ in range(40 if tier == 'quick' else 1200):
+        out.append(upstream_case(rng))
     for _ in range(120 if tier == 'quick' else 4000):
         c = build_case(rng, tier)
         c['order'] = c['P'].topo_shuffle(rng)
@@ -728,7 +963,20 @@ def distribution(cases):
         for k in c['gather']:
             k = 'gather/' + k
             d[k] = d.get(k, 0) + 1
-    st = [c for c in cases if c.get('exec') == 'stateful']
+    ru = [c for c in cases if c.get('reuse')]
+    d['object reuse: one layer / activation / pooling / loss object called several times before any backward, results differentiated one by one'] = len(ru)
+    for c in ru:
+        for k, v in c['reuse'].items():
+            if v is True or k == 'kind':
+                kk = f'object reuse/{k}' + (f'={v}' if k == 'kind' else '')
+                d[kk] = d.get(kk, 0) + 1
+    up = [c for c in cases if c.get('upstream')]
+    d["upstream reuse: the caller's upstream-gradient tensor object handed to several backward calls"] = len(up)
+    for c in up:
+        for k, v in c['upstream'].items():
+            for kk in ([f'upstream reuse/{k}'] if v is True else [f'upstream reuse/{k}={v}'] if isinstance(v, int) and not isinstance(v, bool) else [f'upstream reuse/g is a {q}' for q in v] if isinstance(v, list) else []):
+                d[kk] = d.get(kk, 0) + 1
+    st = [c for c in cases if c.get('exec') == 'stateful' and c.get('stateful')]
     d['stateful: layer objects called several times in one graph'] = len(st)
     for c in st:
         for key, modes in c['stateful'].items():
@@ -812,11 +1060,13 @@ def hist_oracle(c):
     lf = float_leaves(P)
     rg = {nd['outs'][0] for nd in P.nodes if nd['kind'] == 'leaf' and nd['rg']}
     prog, pos = list(lines), []
+    hold = upstream_holders(c['events'])
+    held = {k: np.array(P.nodes[P.owner[k]]['data'], dtype=np.float64).reshape(P.tshape[k]) for k in hold}
     for e in c['events']:
         prog += ev_lines([e], P)
         pos.append(len(prog) - 1)
         if e[0] == 'bw':
-            prog += [f't grad {k}' for k in lf]
+            prog += [f't grad {k}' for k in lf] + [f't val {k}' for k in hold]
     io = tprog.run_program(prog, EXECS[c.get('exec')])
     key = {'ops': sorted({n['name'] for n in P.nodes if n['kind'] == 'op'}), 'history': True}
     if 'rejected' in io[:len(lines)]:
@@ -832,6 +1082,13 @@ def hist_oracle(c):
             if 'rg=1' in fl[-1]:
                 return {'key': dict(key, cls='backward-raises'), 'case': _strip(c), 'what': f'backward call #{n} raised on a root that requires grad'}
             continue
+        for j, k in enumerate(hold):        # the caller's upstream-gradient arrays: bit-identical after every call
+            s_ = io[at + 1 + len(lf) + j]
+            now = None if '|' not in s_ else tprog.parse_arr(s_)
+            if now is None or now.shape != held[k].shape or not np.array_equal(now, held[k], equal_nan=True):
+                return {'key': dict(key, cls='upstream-gradient-modified'), 'case': _strip(c),
+                        'what': f"backward call #{n} (root t{e[1]}) changed an array of the caller's: the upstream-gradient tensor kept in t{k} held {held[k].ravel().tolist()} "
+                                f"before the call and holds {None if now is None else now.ravel().tolist()} after it"}
         ck = (e[1], tuple(e[2]))
         if ck not in cache: cache[ck] = fd_grads(P, e[1], e[2])
         for j, k in enumerate(lf):
@@ -940,8 +1197,17 @@ def search(rng, tier):
         f = c and oracle(c)
         if f:
             yield f
-    for _ in range(30):
-        f = oracle(stateful_case(rng))
+    for k in range(60):
+        f = oracle(stateful_case(rng, each=k % 2 == 0))
+        if f:
+            yield f
+    for _ in range(40):
+        f = oracle(upstream_case(rng))
+        if f:
+            yield f
+    for op in OBJ_OPS:
+        c = object_case(rng, op)
+        f = c and oracle(c)
         if f:
             yield f
     for _ in range(40):
